@@ -352,7 +352,12 @@ func c11FragSpecs(thorough bool) []*gen.FSpec {
 			}
 			enum.Subsets(n-1, func(m uint) {
 				mask := m<<1 | 1
-				for dv := 0; dv < 2; dv++ {
+				for dvx := 0; dvx < 4; dvx++ {
+					// non-sync flavour: depends_on=1 (P/B picture) or depends_on=2 with the non-sync bit set (open-GOP I picture)
+					dv, nonSync := dvx%2, []uint32{gen.FlagsNonSync, 0x02010000}[dvx/2]
+					if dvx >= 2 && mask == 1<<uint(n)-1 {
+						continue // no non-sync sample: same file as dvx-2
+					}
 					for _, base := range []uint64{0, 3} {
 						for _, twoSeg := range []bool{false, true} {
 							if twoSeg && len(frs) < 2 {
@@ -364,7 +369,7 @@ func c11FragSpecs(thorough bool) []*gen.FSpec {
 							for _, cnt := range frs {
 								var ss []gen.FSample
 								for k := 0; k < cnt; k++ {
-									fl := gen.FlagsNonSync
+									fl := nonSync
 									if mask>>uint(idx)&1 == 1 {
 										fl = gen.FlagsSync
 									}
